@@ -1,5 +1,5 @@
-import p_cards, p_eval, p_showdown, p_flop
+import p_cards, p_eval, p_showdown, p_flop, p_scopes
 
 CHECKS = {}
-for m in (p_cards, p_eval, p_showdown, p_flop):
+for m in (p_cards, p_eval, p_showdown, p_flop, p_scopes):
     CHECKS.update(m.CHECKS)
